@@ -18,3 +18,19 @@ Proof. intros. apply eval_rnode. Qed.
 
 Print Assumptions C20_checker_correct.
 Print Assumptions C20_walk.
+
+(** ** walking [kind()] on ids: the view [kind_i] of an id shows one node with children that are again valid ids of
+    smaller rank, the diagram of the id is that one layer over the diagrams of the children, and choosing edges by
+    hand along the views ([eval_i]) is [evaluate] *)
+From PV Require Import Interner.Store Interner.StoreProofs Interner.Intern Interner.EvalModel Interner.EvalProofs.
+Theorem C20_kind_view : forall (a : marena) (x : nid), Inv a -> valid (length a) x ->
+  exists kv, kind_i a x = Some kv /\ Forall (fun y => (rank y < rank x)%nat /\ valid (length a) y) (kview_children kv).
+Proof.
+  intros a x I V. destruct (kind_i_some a x V) as [kv K]. exists kv. split; [exact K|]. exact (kind_i_children a x kv I K).
+Qed.
+
+Theorem C20_walk_on_ids : forall (a : marena) (r : valuation var val), Inv a -> forall (fuel : nat) (x : nid),
+  valid (length a) x -> (rank x < fuel)%nat -> eval_i fuel a r x = Some (eval r (unfold a x)).
+Proof. exact eval_i_refines. Qed.
+Print Assumptions C20_kind_view.
+Print Assumptions C20_walk_on_ids.
